@@ -20,6 +20,7 @@ type c13Env struct {
 	proxies map[int]*Proxy // max_concurrent -> proxy (0 = default)
 	ips     map[int]string
 	up      *FakeUpstream
+	bigs    sync.Map // token string -> number of 1 KiB records the upstream adds to the answer
 	gates   sync.Map // token string -> chan struct{}
 	delays  sync.Map // token string -> time.Duration
 }
@@ -37,13 +38,20 @@ func c13Token(q *UpQuery) string {
 }
 
 func TestVfC13Framing(t *testing.T) {
-	st := vfkit.Stats("TestVfC13Framing", "k in 1..60 pipelined queries of 17 B..4 KiB (one near-64 KiB class) on tcp / gnet / tls listeners, byte stream cut by a drawn segmentation plan (inside the 2-octet prefix, inside bodies, several frames per segment, 1-octet segments, optional 1-3 ms pauses), per-query upstream delays (concurrent, out-of-order completion), max_concurrent_queries in {default,1,2,5} with gated upstream replies, in one case of three preceded by 1-6 connections that die in the middle of a frame; oracle: return stream is exactly k frames whose prefixes equal their body lengths, each body decodes, response IDs = query IDs as multisets, each answer belongs to its own query, exactly k-max REFUSED when the limit is exceeded; non-trivial = a cut inside a prefix or body with k >= 2, or the limit exceeded")
+	st := vfkit.Stats("TestVfC13Framing", "k in 1..60 pipelined queries of 17 B..4 KiB (one near-64 KiB class) on tcp / gnet / tls listeners, byte stream cut by a drawn segmentation plan (inside the 2-octet prefix, inside bodies, several frames per segment, 1-octet segments, optional 1-3 ms pauses), per-query upstream delays (concurrent, out-of-order completion), responses of 17-60 KiB for a quarter of the queries of small batches (several of them completing together), max_concurrent_queries in {default,1,2,5} with gated upstream replies, in one case of three preceded by 1-6 connections that die in the middle of a frame; oracle: return stream is exactly k frames whose prefixes equal their body lengths, each body decodes, response IDs = query IDs as multisets, each answer belongs to its own query, exactly k-max REFUSED when the limit is exceeded; non-trivial = a cut inside a prefix or body with k >= 2, or the limit exceeded")
 	defer vfkit.Flush()
 	env := &c13Env{proxies: map[int]*Proxy{}, ips: map[int]string{}}
 	block := NextIPBlock()
-	up, err := StartUpstream("udp", "up", block+"2", 0, nil, func(q *UpQuery) UpAction {
+	up, err := StartUpstream("tcp", "up", block+"2", 0, nil, func(q *UpQuery) UpAction {
 		tok := c13Token(q)
-		a := UpAction{Reply: EncodeMsg(KeyedAnswer(q.Msg, "c13", 0, 60, 0))}
+		km := KeyedAnswer(q.Msg, "c13", 0, 60, 0)
+		if n, ok := env.bigs.Load(tok); ok {
+			// a response of tens of KiB: larger than one TLS record, one socket buffer or any internal write chunk
+			for i := 0; i < n.(int); i++ {
+				km.Ar = append(km.Ar, vfkit.RR{Owner: km.Q[0].Name, Type: 65280, Class: 1, TTL: 60, RData: []vfkit.RDPart{{Raw: bytes.Repeat([]byte{byte(i)}, 1000)}}})
+			}
+		}
+		a := UpAction{Reply: EncodeMsg(km)}
 		if g, ok := env.gates.Load(tok); ok {
 			a.Gate = g.(chan struct{})
 		}
@@ -88,6 +96,7 @@ func TestVfC13Framing(t *testing.T) {
 			wire []byte
 		}
 		qs := make([]qinfo, k)
+		bigResponses := 0
 		var stream []byte
 		var bounds []int // frame start offsets
 		for i := range qs {
@@ -105,6 +114,10 @@ func TestVfC13Framing(t *testing.T) {
 				if i == 0 {
 					m.Ar = append(m.Ar, vfkit.RR{Type: 65280, Class: 1, RData: []vfkit.RDPart{{Raw: bytes.Repeat([]byte{9}, 65000)}}})
 				}
+			}
+			if k <= 12 && rapid.IntRange(0, 3).Draw(t, "bigResponse") == 0 {
+				env.bigs.Store(tok, rapid.IntRange(17, 60).Draw(t, "bigKiB"))
+				bigResponses++
 			}
 			qs[i] = qinfo{id: m.ID, name: name, tok: tok, wire: EncodeMsg(m)}
 			bounds = append(bounds, len(stream))
@@ -160,6 +173,7 @@ func TestVfC13Framing(t *testing.T) {
 			for _, q := range qs {
 				env.gates.Delete(q.tok)
 				env.delays.Delete(q.tok)
+				env.bigs.Delete(q.tok)
 			}
 		}()
 		var tcfg *tls.Config
@@ -281,6 +295,9 @@ func TestVfC13Framing(t *testing.T) {
 		}
 		if nAbort > 0 {
 			classes = append(classes, "after-aborted-connections")
+		}
+		if bigResponses >= 2 {
+			classes = append(classes, "concurrent-big-responses")
 		}
 		st.Case(vfkit.Fingerprint(stream, fmt.Sprint(cuts), listener, mc), (inside && k >= 2) || over > 0, classes, func() any {
 			return map[string]any{"listener": listener, "k": k, "max_concurrent": mc, "cuts": cuts[:min(len(cuts), 20)], "stream_len": len(stream), "refused": refused}
